@@ -710,9 +710,11 @@ def write_translated(path):
     text, errors = py2lean.generate(os.path.join(SRC, "serif"))
     rel, rerrors = py2lean.generate_rel(os.path.join(SRC, "serif"))
     grp, gerrors = py2lean.generate_group(os.path.join(SRC, "serif"))
-    rerrors = rerrors + gerrors
+    ali, aerrors = py2lean.generate_alias(os.path.join(SRC, "serif"))
+    rerrors = rerrors + gerrors + aerrors
     for pth, txt in ((path, text), (os.path.join(os.path.dirname(path), "TranslatedRel.lean"), rel),
-                     (os.path.join(os.path.dirname(path), "TranslatedGroup.lean"), grp)):
+                     (os.path.join(os.path.dirname(path), "TranslatedGroup.lean"), grp),
+                     (os.path.join(os.path.dirname(path), "TranslatedAlias.lean"), ali)):
         old = open(pth).read() if os.path.exists(pth) else None
         if old != txt:
             tmp = pth + ".tmp%d" % os.getpid()
